@@ -17,7 +17,7 @@ package main
 //    --exclude --forget}
 // x repository version {1, 2} x --compression {off, auto, max}.
 // The source tree carries distinctive 24-byte markers in: compressible file
-// content, incompressible file content (marker embedded every 64 KiB), a tiny
+// content, incompressible file content (four files of 0.5-1.3 MiB, marker embedded every 64 KiB), a tiny
 // file, file names, directory names, the backup path, a symlink target, an
 // xattr value, the snapshot host name, tags, key user/host names, and the
 // repository password.
@@ -58,6 +58,7 @@ import (
 	"io/fs"
 	"os"
 	"path/filepath"
+	"runtime/debug"
 	"sort"
 	"strings"
 	"sync"
@@ -235,6 +236,16 @@ func verifC04WriteTree(t *testing.T, root string, stage int) {
 		copy(inc[off:], m["content-incompressible"])
 	}
 	must(os.WriteFile(filepath.Join(d, "bin-"+m["filename-2"]), inc, 0o644))
+	// further incompressible files of more than the minimal chunk size: several blobs whose ciphertext is
+	// at least 512 KiB are sealed one after the other in one process (buffers of that size class are the ones
+	// an implementation might recycle)
+	for i, n := range []int{700 * 1024, 1300 * 1024, 560 * 1024} {
+		big := verifC04LCG(n, uint32(11+i))
+		for off := 2000; off+24 < len(big); off += 64 * 1024 {
+			copy(big[off:], m["content-incompressible"])
+		}
+		must(os.WriteFile(filepath.Join(d, fmt.Sprintf("big%d", i)), big, 0o644))
+	}
 	must(os.WriteFile(filepath.Join(d, "tiny"), []byte(m["content-tiny"]), 0o644))
 	_ = os.Remove(filepath.Join(d, "link"))
 	must(os.Symlink("/nowhere/"+m["symlink-target"], filepath.Join(d, "link")))
@@ -288,6 +299,9 @@ func TestVerif_C04(t *testing.T) {
 	}
 	realRand := rand.Reader
 	defer func() { rand.Reader = realRand }()
+	// harness-only tuning: no garbage collection while the histories run, so that object pools (sync.Pool) are
+	// not emptied at random moments and a recycled buffer is handed out again as deterministically as possible
+	defer debug.SetGCPercent(debug.SetGCPercent(-1))
 
 	ops := []string{"backup-again", "backup-B", "forget", "prune", "key-add", "tag", "rewrite"}
 	var histories [][]string
